@@ -19,7 +19,7 @@ PlainIds == IF MaxFields >= 3 THEN PlainIdsCore ELSE PlainIdsAll
 InlineIds == {"none", "i_map", "i_str", "i_str2"}
 \* all keys, in the fixed order documents list them
 KeyOrder == <<"name", "label", "title", "count", "n", "flag", "tags", "labels", "items", "env", "extra", "anyv", "av", "sub", "psub", "ps", "subs",
-              "hidden", "ratio", "nenv", "maxRetries", "MaxRetries", "maxretries", "u1", "", "p", "q">>
+              "hidden", "ratio", "nenv", "maxRetries", "MaxRetries", "maxretries", "u1", "", "p", "q", "rest", "rests", "restt">>
 Marker(k) == Str("m:" \o k)
 SubDocs == { [t |-> "m", kv |-> <<<<"x", Str("m:x")>>, <<"y", Num("41")>>>>], [t |-> "m", kv |-> <<<<"y", Num("42")>>, <<"zz", Str("lost")>>>>] }
 \* the values a key may carry: well-typed for the field that could consume it
@@ -27,6 +27,7 @@ Vals(k) ==
     CASE k \in {"name", "label", "title", "hidden", "u1", "", "p"} -> {Marker(k)}
       [] k = "count" -> {Num("11")} [] k = "n" -> {Num("12")} [] k = "q" -> {Num("13")}
       [] k = "maxRetries" -> {Num("21")} [] k = "MaxRetries" -> {Num("22")} [] k = "maxretries" -> {Num("23")}     \* the last is no key of any field
+      [] k \in {"rest", "rests", "restt"} -> {[t |-> "m", kv |-> <<<<"p", Marker(k)>>, <<"colour", Str("blue")>>>>]}     \* a key spelled like the catch-all field's own (lower-cased) Go name: it is a key like any other
       [] k = "flag" -> {Bool(TRUE)}
       [] k = "ratio" -> {Num("2.5")}
       [] k \in {"tags", "labels"} -> {[t |-> "q", e |-> <<Marker(k), Str("second")>>]}
@@ -45,7 +46,7 @@ States(k) == {Absent} \cup Vals(k) \cup (IF NullOK(k) THEN {Null} ELSE {})
 FieldsOf(ids, inl) == [i \in 1..Len(ids) |-> FieldPool[ids[i]]] \o (IF inl = "none" THEN <<>> ELSE <<FieldPool[inl]>>)
 KeysOf(desc, inl) ==
     UNION {{desc[i].key} \cup {desc[i].aliases[j] : j \in 1..Len(desc[i].aliases)} : i \in {x \in 1..Len(desc) : desc[x].role # "inline"}}
-    \cup {"u1", ""} \cup (IF \E i \in 1..Len(desc) : desc[i].key = "maxRetries" THEN {"maxretries"} ELSE {}) \cup (IF inl = "i_str" THEN {"p", "q"} ELSE {}) \cup (IF inl = "i_str2" THEN {"name", "n"} ELSE {})
+    \cup {"u1", ""} \cup (IF \E i \in 1..Len(desc) : desc[i].key = "maxRetries" THEN {"maxretries"} ELSE {}) \cup (IF inl = "i_str" THEN {"p", "q"} ELSE {}) \cup (IF inl = "i_str2" THEN {"name", "n", "restt"} ELSE {}) \cup (IF inl = "i_map" THEN {"rest"} ELSE {}) \cup (IF inl = "i_str" THEN {"rests"} ELSE {})
 RECURSIVE DocsOver(_, _)
 DocsOver(K, i) ==
     IF i > Len(KeyOrder) THEN {<<>>}
